@@ -7,6 +7,12 @@ NOTES = ("All checks: ./check <ID> quick|thorough; exit 0 held / 1 VIOLATION / 2
          "every run. known_findings.json lists open findings and fixed: records; replays/<ID>/ holds committed regression cases.")
 NOT_APPLICABLE = {}
 CHECKS = {
+    "C11": {
+        "technique": "stateful (model-based) property-based testing: Hypothesis RuleBasedStateMachine generates histories of facade calls over a pool of mutually confusable hints (plus replace/extend, LRU churn, failing requests); after every step a probe battery is compared between the warm objects and a freshly constructed equal retort",
+        "text": "Exploration over generated call histories (up to 40 steps): warm and fresh retorts must give the same outcomes, loaders obtained earlier must keep answering the same, replace()/extend() must not change the original.",
+        "note": "Trusted: the differential oracle (fresh retort with identical provider objects); structural comparison of results and flattened exceptions.",
+        "engine": "hypothesis-stateful",
+    },
     "C19": {
         "technique": "dictionary-seeded property-based testing / fuzzing of the three code generators: Hypothesis draws field ids, class / stub names, mapped keys and defaults from hostile dictionaries (internal identifiers, builtins, metacharacters, code fragments calling a canary) plus st.text; oracle = generation succeeds, layout behaviour, canary never hit, stub signature preserved",
         "text": "Exploration of model loader, model dumper, get_converter and impl_converter generation over hostile names and keys; any evaluation of injected text is observed through a canary module.",
